@@ -601,7 +601,8 @@ async fn c19_extras(work: &Path, dev: &Device) -> Result<C19Extras> {
     let mut sets = Vec::new();
     for (id, urls) in [
         (dev.account_id, vec![("one", "https://one.example.org/"), ("two", "http://192.168.1.7:5053/")]),
-        (second_id, vec![("three", "https://three.example.org/api")]),
+        // the first server is shared by the two accounts
+        (second_id, vec![("one", "https://one.example.org/"), ("three", "https://three.example.org/api")]),
     ] {
         let paths = Paths::new_client(work).with_account_id(&id);
         let mut origins = ServerOrigins::new(BackendTarget::FileSystem(paths), &id);
